@@ -467,6 +467,18 @@ class Program:
                 return c[k]
             except (KeyError, IndexError, TypeError):
                 return UNKNOWN
+        if isinstance(e, ast.Call) and isinstance(e.func, ast.Attribute) and not e.keywords and not any(isinstance(a, ast.Starred) for a in e.args) \
+                and e.func.attr in ("index", "count", "get", "keys", "values", "items", "upper", "lower", "strip", "split", "join", "format", "replace", "startswith", "endswith"):
+            # a read-only method of a constant (a position in a constant tuple, an entry of a constant dict, a string operation)
+            recv = self.const(mi, e.func.value, local, d)
+            if recv is not UNKNOWN and isinstance(recv, (tuple, list, dict, str, frozenset)):
+                vals = [self.const(mi, a, local, d) for a in e.args]
+                if not any(v is UNKNOWN for v in vals) and hasattr(recv, e.func.attr):
+                    try:
+                        out = getattr(recv, e.func.attr)(*vals)
+                        return tuple(out) if e.func.attr in ("keys", "values", "items") else out
+                    except (ValueError, TypeError, KeyError, IndexError):
+                        return UNKNOWN
         if isinstance(e, ast.Call) and isinstance(e.func, ast.Name) and e.func.id in ("range", "enumerate", "zip", "len", "reversed") and not (local and e.func.id in local) \
                 and not any(isinstance(a, ast.Starred) for a in e.args) and self.resolve_name_expr(mi, e.func) is None:
             vals = [self.const(mi, a, local, d) for a in e.args]
